@@ -1016,6 +1016,14 @@ class ArgumentKinds(Sub):
             o = env.evo(f, vars={'xb': None})
             if o != ['v', want]:
                 return fail('%s%s gives %r, expected %r' % (f, ' with xb blank' if 'xb' in f else '', o, want), ['v', want], o)
+        # a blank delimiter is the empty text like every other blank text argument; an error value given as the delimiter or as the
+        # skip-blanks flag is the result (nobody asked to skip blanks: an error is not an answer to that question)
+        for f, want in (('TEXTJOIN(xb,TRUE,"a","b")', ['v', 'ab']), ('TEXTJOIN(,FALSE,"a","b")', ['v', 'ab']), ('TEXTJOIN(xr,TRUE,"a","b")', ['v', 'ab']),
+                        ('TEXTJOIN(",",1/0,"a",,"b")', ['e', '#DIV/0!']), ('TEXTJOIN(",",xe,"a",,"b")', ['e', '#N/A']),
+                        ('TEXTJOIN(1/0,TRUE,"a","b")', ['e', '#DIV/0!']), ('TEXTJOIN(xe,FALSE,"a","b")', ['e', '#N/A'])):
+            o = env.evo(f, vars={'xb': None, 'xr': [[None]], 'xe': [[env.err.XLError('#N/A')]]})
+            if o != want:
+                return fail('%s (xb blank, xr a one-cell range holding a blank, xe a one-cell range holding #N/A) gives %r, expected %r' % (f, o, want), want, o)
         return None
 
 
